@@ -75,6 +75,9 @@ def build_base(kind, case):
     if kind == "ig":
         from vf.props.c17 import tolib
         return tolib([tuple(r) for r in case], 7)
+    if kind == "fcfg":
+        from vf.props.c18 import build_fcfg
+        return build_fcfg(case)          # a feature grammar is a CFG for kind_of(): queried through the same ops
     raise ValueError(kind)
 
 
@@ -157,7 +160,8 @@ OPS = {
 }
 
 MUTATIONS = {
-    "fa": ["add_final_all", "add_transition_new", "remove_finals", "add_start_new"],
+    "fa": ["add_final_all", "add_transition_new", "remove_finals", "add_start_new", "add_eps_final_to_start",
+           "remove_eps_all", "add_eps_final_to_start"],
     "pda": ["add_transition_new", "add_final_new"],
     "fst": ["add_transition_new", "add_final_all"],
     "dict": ["clear"],
@@ -181,6 +185,18 @@ def mutate(kind, obj, how):
         elif how == "add_start_new":
             obj.add_start_state("mut_start")
             obj.add_final_state("mut_start")
+        elif how == "add_eps_final_to_start":
+            # epsilon edges leaving states that other states may already reach by epsilon moves
+            for f in list(obj.final_states):
+                for s0 in list(obj.start_states):
+                    try:
+                        obj.add_transition(f, "epsilon", s0)
+                    except Exception:      # noqa  (classes without epsilon moves refuse)
+                        return
+        elif how == "remove_eps_all":
+            from pyformlang.finite_automaton import Epsilon
+            for (p_, a_, q_) in [t for t in obj if isinstance(t[1], Epsilon)]:
+                obj.remove_transition(p_, a_, q_)
     elif kind == "pda":
         if how == "add_transition_new":
             obj.add_transition(obj.start_state, "a", "MUTZ", "mut_state", [])
@@ -341,6 +357,8 @@ def base_pool(rng):
     e2["n"] += 1
     e2.pop("edits", None)
     add("fa", e2)                                   # 10: empty language (final state unreachable)
+    from vf.props import c18
+    add("fcfg", [c18.agreement_fcfg, c18.nested_fcfg, c18.rand_fcfg, c18.epsilon_fcfg][rng.randrange(4)](rng))   # 11
     return pool
 
 
@@ -513,7 +531,7 @@ def prior_ops(events, ev):
 
 def targeted(rng, n):
     """scripts aimed at each cache in the anchors; pool indices: 0,1 fa  2,3 regex  4,5 cfg  6 pda  7 fst  8 ig
-    9,10 empty-language fa; "Rk" = the k-th object returned during the history"""
+    9,10 empty-language fa  11 feature grammar; "Rk" = the k-th object returned during the history"""
     out = []
     analyses = ["get_generating_symbols", "get_nullable_symbols", "generate_epsilon", "is_empty", "contains",
                 "to_normal_form", "get_words", "is_finite"]
@@ -564,6 +582,18 @@ def targeted(rng, n):
                     {"target": 10, "op": "minimize", "arg": 0}, {"target": 9, "op": "is_equivalent_to", "others": [10], "arg": 0},
                     {"target": 10, "op": "is_equivalent_to", "others": [0], "arg": 0}, {"target": "R1", "op": "accepts", "arg": 1},
                     {"target": 9, "op": "minimize", "arg": 0}, {"target": "R3", "op": "accepts", "arg": 1}])
+        # feature grammar: the same and other words asked again and again of one object (chart / lexicon state)
+        ws = [rng.randrange(6) for _ in range(10)]
+        out.append([{"target": 11, "op": "contains", "arg": a} for a in ws + ws[:4]])
+        # an automaton edited by epsilon moves between queries (closures computed before the edit)
+        out.append([{"target": 0, "op": "accepts", "arg": 3}, {"target": 0, "op": "to_deterministic", "arg": 0},
+                    {"target": 0, "op": "accepts", "arg": 5}, {"target": 0, "mutate": "add_eps_final_to_start"},
+                    {"target": 0, "op": "accepts", "arg": 3}, {"target": 0, "op": "accepts", "arg": 5},
+                    {"target": 0, "op": "accepts", "arg": 4}, {"target": 0, "op": "minimize", "arg": 0},
+                    {"target": 0, "op": "is_equivalent_to", "others": [1], "arg": 0},
+                    {"target": 0, "mutate": "remove_eps_all"}, {"target": 0, "op": "accepts", "arg": 3},
+                    {"target": 0, "op": "accepts", "arg": 1}, {"target": 0, "op": "remove_epsilon_transitions", "arg": 0},
+                    {"target": 0, "op": "get_accepted_words", "arg": 0}])
         # indexed grammar: repeated emptiness, after remove_useless_rules
         out.append([{"target": 8, "op": "is_empty", "arg": 0}, {"target": 8, "op": "is_empty", "arg": 0},
                     {"target": 8, "op": "remove_useless_rules", "arg": 0}, {"target": 8, "op": "is_empty", "arg": 0},
